@@ -90,6 +90,12 @@ extern "C"
 
     void channel_accept_writes(struct channel* self, uint32_t tf);
 
+    /// @brief Forget consumed data: move the writer and all readers back to
+    /// the start of the buffer.
+    /// Does nothing unless every registered reader has consumed everything.
+    /// The caller ensures that no write is mapped or in progress.
+    void channel_rewind(struct channel* self);
+
     struct slice channel_read_map(struct channel* self,
                                   struct channel_reader* reader);
 
